@@ -63,11 +63,11 @@ fn wide_family() -> ListSpace {
             files.push((f, Term::Lf));
         }
     }
-    ListSpace { name: "wide family (>= 6 keys per hash container)".into(), note: "n = 2..=8 classes x n methods x n argument strings x 4 variants (sourceFile headers, ranges, duplicates)".into(), files, wide: false }
+    ListSpace { name: "wide family (>= 6 keys per hash container)".into(), note: "n = 2..=8 classes x n methods x n argument strings x 4 variants (sourceFile headers, ranges, duplicates)".into(), files, wide: false, chunk: Default::default() }
 }
 
 fn c14_spaces(thorough: bool) -> Vec<Box<dyn Space>> {
-    vec![Box::new(ms_b(if thorough { 5 } else { 4 }, true)), Box::new(ms_c()), Box::new(ms_d(thorough)), Box::new(wide_family()), Box::new(crate::families::scale_family(false)), Box::new(crate::families::unicode_family()), Box::new(crate::families::huge_family(if thorough { 400_000 } else { 150_000 }))]
+    vec![Box::new(ms_b(if thorough { 5 } else { 4 }, true)), Box::new(ms_c()), Box::new(ms_d(thorough)), Box::new(wide_family()), Box::new(crate::families::scale_family(false)), Box::new(crate::families::unicode_family()), Box::new(crate::families::huge_family(if thorough { 400_000 } else { 150_000 })), Box::new(crate::families::alignment_family())]
 }
 
 /// the deterministic enumeration shared by all processes
@@ -107,6 +107,19 @@ fn c14_observe(bytes: &[u8], with_threads: bool) -> (Vec<u8>, u64) {
     match dec::header(&a) {
         Some(h) if dec::layout(&h).total == a.len() as u64 => {}
         _ => flags |= 4,
+    }
+    // the same bytes at every address residue modulo 8 ("allocation addresses")
+    if with_threads || bytes.len() < 2000 && bytes.iter().any(|b| *b >= 0x80) {
+        let mut store = vec![0u8; bytes.len() + 16];
+        let base = store.as_ptr() as usize;
+        for r in 0..8usize {
+            let off = (8 - base % 8) % 8 + r;
+            store[off..off + bytes.len()].copy_from_slice(bytes);
+            let x = cur::write_cache(&store[off..off + bytes.len()]).expect("write");
+            if x != a {
+                flags |= 8;
+            }
+        }
     }
     (a, flags)
 }
@@ -164,6 +177,9 @@ fn flag_sigs(flags: u64) -> Vec<&'static str> {
     // history of hash keys in the process; the finding is the same: the bytes are not a function of the mapping
     if flags & 3 != 0 {
         v.push("bytes-not-a-function-of-the-mapping");
+    }
+    if flags & 8 != 0 {
+        v.push("bytes-depend-on-the-buffer-address");
     }
     if flags & 4 != 0 {
         v.push("length:differs-from-header");
@@ -232,7 +248,7 @@ pub fn run_c14(tier: Tier) -> i32 {
         for (i, f) in flags.iter().enumerate() {
             for sig in flag_sigs(*f) {
                 let m = print_file(&states[i].0, states[i].1);
-                acc.violation(sig, m.len(), || (format!("process with {}: {} for state #{} (flags {}: 1 = consecutive writes differ, 2 = concurrent-thread writes differ, 4 = length)", label, sig, i, f), mkcase(i)));
+                acc.violation(sig, m.len(), || (format!("process with {}: {} for state #{} (flags {}: 1 = consecutive writes differ, 2 = concurrent-thread writes differ, 4 = length, 8 = differs when the mapping bytes sit at another address modulo 8)", label, sig, i, f), mkcase(i)));
             }
         }
         match &base {
@@ -262,7 +278,7 @@ pub fn run_c14(tier: Tier) -> i32 {
         prop: "C14",
         tier,
         level: "exploration",
-        rule: format!("inputs enumerated exhaustively (MS-B depth <= {}, MS-C, MS-D, wide family with >= 6 keys per hash container, corpus files); every input is written in {} separately started processes with harness-owned hash seeds (getrandom shim) and 2 processes with OS seeds; in every process: two consecutive writes, for every 64th input two more writes from concurrent threads, and the length check against the header. All byte strings for one input must be identical. evaluations = inputs; distinct = distinct cache files", if t { 5 } else { 4 }, nseeds),
+        rule: format!("inputs enumerated exhaustively (MS-B depth <= {}, MS-C, MS-D, wide family with >= 6 keys per hash container, corpus files); every input is written in {} separately started processes with harness-owned hash seeds (getrandom shim) and 2 processes with OS seeds; in every process: two consecutive writes, for every 64th input two more writes from concurrent threads and eight writes with the mapping bytes placed at every address residue modulo 8 (also for every input containing non-ASCII bytes), and the length check against the header. All byte strings for one input must be identical. evaluations = inputs; distinct = distinct cache files", if t { 5 } else { 4 }, nseeds),
         bounds: json!({"scopes": c14_spaces(t).iter().map(|s| { let mut d = s.describe(); if d.get("alphabet").is_some() { d["alphabet"] = json!("see pgmc/src/e1.rs"); } d }).collect::<Vec<_>>(), "processes": nprocs, "owned_seeds": nseeds, "distinct_iteration_orders": distinct_orders}),
         assumptions: vec!["the 2^128 seed space is not enumerable: seeds are a finite harness-owned set; exhaustive is the input dimension".into(), "std RandomState draws its per-thread keys through getrandom (interposed by the shim) and increments them for every new table".into()],
         trusted_base: vec!["rustc/std".into(), "getrandom shim /verif/shim/getrandom_shim.c".into()],
